@@ -33,7 +33,9 @@ Record cfg := mkCfg {
   c_hdr  : N;   (* sizeof(struct arena_frame) *)
   c_node : N;   (* sizeof(struct arena_cleanup) *)
   c_gap  : N;   (* a->poison_size *)
-  c_fsz0 : N    (* a->frame_size = 16 * page size *)
+  c_fsz0 : N;   (* a->frame_size = 16 * page size *)
+  c_sv   : bool (* arena_realloc_fast calls arena_scope_validate before its "new_size <= old_size" return
+                   (false for the source as it is; true with findings/C19_outer_shrink.diff) *)
 }.
 
 (* 2^64: size_t and uint64_t arithmetic is checked against this bound exactly
@@ -209,7 +211,9 @@ Definition calloc (c : cfg) (a : arena) (s : scope) (nmemb size : N) : res (loc 
 
 (* arena_realloc_fast: Ok (true, _) = done in place *)
 Definition realloc_fast (c : cfg) (a : arena) (s : scope) (p : loc) (old new : N) : res (bool * arena) :=
-  if new <=? old then Ok (true, a)                      (* shrinking: no validation, no change *)
+  if new <=? old then                                   (* shrinking: no change ... *)
+    (if c_sv c && negb (validate a s) then Trap        (* ... validated only by the repaired source *)
+     else Ok (true, a))
   else if negb (validate a s) then Trap
   else
     match a_frames a with
